@@ -20,7 +20,7 @@ import fe_server as fs
 import fe_world
 
 PROP = "C11"
-SYMS = ["create", "createbad", "genkey", "encrypt", "upconfig", "upindex", "search"]
+SYMS = ["create", "createbad", "createsame", "genkey", "encrypt", "upconfig", "upindex", "search"]
 NOSID = "e" * 64
 OKFILES = {"config.json", "key", "edb", "service_meta"}
 
@@ -83,6 +83,19 @@ class Run:
         sid = self.sid or NOSID
         if sym == "create":
             r = await self.w.client_op("create", self.sid or "", copy.deepcopy(self.fx["cfg"]))
+            if r["out"] == "ok":
+                self.sid = r["sid"]
+        elif sym == "createsame":
+            # create-service from scratch (no sid) with the stored configuration, which already carries its salt
+            cfgd = copy.deepcopy(self.fx["cfg"])
+            if self.sid:
+                import json
+                try:
+                    with open(os.path.join(self.w.cdir, self.sid, "config.json")) as fh:
+                        cfgd = json.load(fh)
+                except Exception:
+                    pass
+            r = await self.w.client_op("create", "", cfgd)
             if r["out"] == "ok":
                 self.sid = r["sid"]
         elif sym == "createbad":
